@@ -18,11 +18,87 @@ def rule_id_charset(ctx, rid="C13.ID-CHARSET"):
                   site=lc.rules[i].site, text=lc.rules[i].pattern)
 
 
+BUILTIN_VALUE_TYPES = {"str", "int", "float", "bytes", "tuple", "list"}
+RENDER_DUNDERS = {"__repr__", "__str__", "__format__"}
+
+
+def _own_value_class(ctx, mod, call):
+    """If `call` constructs a class of the package that derives from a built-in value type and defines its own rendering
+    (__repr__/__str__/__format__) somewhere in its own-code ancestry: (class name, dunder); else None."""
+    import ast
+    from pyab_static.srcmodel import dotted
+    d = dotted(call.func)
+    if not d:
+        return None
+    m2, node = ctx.src.resolve_name(mod, d.split(".")[0])
+    seen = 0
+    derives, dunder = False, None
+    while isinstance(node, ast.ClassDef) and seen < 6:
+        seen += 1
+        for st in node.body:
+            if isinstance(st, ast.FunctionDef) and st.name in RENDER_DUNDERS and dunder is None:
+                dunder = f"{node.name}.{st.name}"
+        nxt = None
+        for b in node.bases:
+            bd = dotted(b) or ""
+            if bd.split(".")[-1] in BUILTIN_VALUE_TYPES:
+                derives = True
+            else:
+                m3, n3 = ctx.src.resolve_name(m2, bd.split(".")[0]) if bd else (None, None)
+                if isinstance(n3, ast.ClassDef):
+                    nxt = (m3, n3)
+        if nxt is None:
+            break
+        m2, node = nxt
+    return (d, dunder) if derives and dunder else None
+
+
+def rule_plain_token_values(ctx, rid="C13.PLAIN-TOKEN-VALUES"):
+    """The quoting argument (repr()/ascii() of a str is a Python literal of exactly that str) holds for built-in values.
+    A token action that wraps the text in a package class deriving from str/int/... with its own __repr__/__str__/
+    __format__ makes every later repr()/str()/f-string of the value run that code instead."""
+    import ast
+    lc = ctx.main
+    n = 0
+    for r in lc.rules:
+        if r.func is None or r.kind == "trivia" or not r.emits:
+            continue
+        n += 1
+        hit = None
+        for c in ast.walk(r.func):
+            if isinstance(c, ast.Call):
+                hit = hit or _own_value_class(ctx, lc.mod, c)
+        con = f"language/lexer.py:{lc.name}.{r.name}"
+        ctx.rep.check(hit is None, rid, con, "the token value is built from built-in types only" if hit is None else
+                      f"the token value is an instance of {hit[0]}, which derives from a built-in value type and defines {hit[1]}: "
+                      "repr()/str()/format() of the value in the generator no longer produce the built-in quoting", site=r.site,
+                      text=f"{r.name} value class {hit[0] if hit else '-'}")
+    ctx.rep.floor("token actions inspected for value classes", n, 2)
+    # the same wrapper introduced later on the way to the generator: grammar actions and model validators
+    for rel in ("language/grammar.py", "data_structures/syntax_tree.py"):
+        m = ctx.mod(rel)
+        hits = []
+        for fn in [x for x in ast.walk(m.tree) if isinstance(x, (ast.FunctionDef, ast.AsyncFunctionDef))]:
+            for c in ast.walk(fn):
+                if isinstance(c, ast.Call):
+                    h = _own_value_class(ctx, m, c)
+                    if h:
+                        hits.append((fn, c, h))
+        if hits:
+            fn, c, h = hits[0]
+            ctx.rep.bad(rid, f"{rel}:{fn.name}", f"constructs {h[0]}, which derives from a built-in value type and defines {h[1]}: if a "
+                        "literal is wrapped in it, repr()/str()/format() in the generator run that code", site=m.site(c),
+                        text=f"{fn.name} constructs {h[0]}")
+        else:
+            ctx.rep.ok(rid, rel, "no construction of a built-in-derived class with its own rendering")
+
+
 def check(rep):
     ctx = Ctx(rep)
     if rep.tier == "thorough":
         LR.validate_engine(ctx)
     rule_id_charset(ctx)
+    rule_plain_token_values(ctx)
     LR.rule_string_delimiters(ctx, rid="C13.STRING-DELIMITERS")
     PR.rule_compiles(ctx, rid="C13.SHAPE-COMPILES", strict=False)
     PR.rule_renderers(ctx, rid="C13.TAINT", kinds=("str",), extra_safe=("json",))
